@@ -36,6 +36,7 @@ type insertPlan struct {
 	external []*TNode // external data table columns
 	extRows  int
 	uniform  bool // incompressible values
+	longStr  bool // strings around and beyond 1 KiB
 }
 
 type insertQuery struct {
@@ -68,7 +69,7 @@ func runInsertPlan(r *Rng, sc *simClient, q insertQuery, p insertPlan, streamSch
 	var cur []*CNode
 	for _, t := range p.types {
 		col, _ := newColumn(t)
-		cn := genCol(r, t, p.initial, genOpts{uniform: p.uniform})
+		cn := genCol(r, t, p.initial, genOpts{uniform: p.uniform, longStrings: p.longStr})
 		_ = fillColumn(col, cn)
 		cols = append(cols, col)
 		cur = append(cur, cn)
@@ -95,14 +96,14 @@ func runInsertPlan(r *Rng, sc *simClient, q insertQuery, p insertPlan, streamSch
 		switch rd.Mut {
 		case "append":
 			for i, t := range p.types {
-				add := genCol(r, t, rd.Rows, genOpts{})
+				add := genCol(r, t, rd.Rows, genOpts{longStrings: p.longStr})
 				_ = fillColumn(cols[i], add)
 				cur[i] = concatCols(cur[i], add)
 			}
 		case "replace":
 			// the callback installs a DIFFERENT column object in the Input slice (prebuilt chunks, double buffering)
 			for i, t := range p.types {
-				add := genCol(r, t, rd.Rows, genOpts{uniform: p.uniform})
+				add := genCol(r, t, rd.Rows, genOpts{uniform: p.uniform, longStrings: p.longStr})
 				col, _ := newColumn(t)
 				_ = fillColumn(col, add)
 				cols[i] = col
@@ -115,7 +116,7 @@ func runInsertPlan(r *Rng, sc *simClient, q insertQuery, p insertPlan, streamSch
 				k = cur[0].NRows() // same number of rows: the old memory is overwritten in place
 			}
 			for i, t := range p.types {
-				add := genCol(r, t, k, genOpts{uniform: p.uniform})
+				add := genCol(r, t, k, genOpts{uniform: p.uniform, longStrings: p.longStr})
 				if rd.Mut == "poke" && pokeColumn(cols[i], add) {
 					// the rows were rewritten through the column's exported storage, no Reset, no Append
 					run.poked++
@@ -627,6 +628,21 @@ func runC09(c *Ctx) {
 		c02One(c, r.Fork(), o, "C09")
 	}
 	c02LargeBlocks(c, r.Fork(), "C09")
+	// directed: String columns with values around and beyond 1 KiB next to short ones (a writer may treat long values
+	// differently), plain and wrapped, appended to / rewritten from round to round
+	for _, ts := range []string{"String", "Array(String)", "Nullable(String)"} {
+		t, err := parseCH(ts)
+		if err != nil {
+			continue
+		}
+		for _, comp := range []ch.Compression{ch.CompressionDisabled, ch.CompressionLZ4} {
+			p := insertPlan{types: []*TNode{t}, names: []string{"c0"}, initial: 6, hasCB: true, longStr: true}
+			p.rounds = []inputRound{{Mut: "reset-append", Rows: 5, Ret: "nil"}, {Mut: "append", Rows: 4, Ret: "nil"}, {Mut: "overwrite", Rows: 9, Ret: "nil"}, {Mut: "append", Rows: 3, Ret: "wrapped-eof"}}
+			c02ForcedPlan = &p
+			c02One(c, r.Fork(), simOpts{compression: comp, serverRev: 54460, readTimeout: 80 * time.Millisecond}, "C09")
+			c02ForcedPlan = nil
+		}
+	}
 	// directed: the callback puts another column object into the Input slice each round (prebuilt chunks); the initial
 	// column is an empty placeholder or holds rows; the last chunk comes together with io.EOF
 	for _, ts := range []string{"Int64", "String", "LowCardinality(String)", "Array(UInt8)"} {
